@@ -69,7 +69,7 @@ struct Acc {
     samples: Vec<mcx::Value>,
 }
 
-fn run_universe(dag: &Dag, fam: &Family, oracles: Oracles, convergence: bool) -> Acc {
+fn run_universe(dag: &Dag, fam: &Family, oracles: Oracles, convergence: bool, class_ok: fn(&str) -> bool) -> Acc {
     let mut acc = Acc::default();
     acc.universes = 1;
     let cmds = dag.cmds();
@@ -104,6 +104,9 @@ fn run_universe(dag: &Dag, fam: &Family, oracles: Oracles, convergence: bool) ->
         acc.commit_points += ex.points.len() as u64;
         let vs = check_exec(dag, &mut refm, h, &mut ex, oracles);
         for (k, d) in vs {
+            if !class_ok(&k) {
+                continue;
+            }
             *acc.outcomes.entry(format!("violation:{k}")).or_default() += 1;
             if acc.violations.iter().filter(|(kk, _, _)| kk.starts_with(&format!("{k}:"))).count() < 1 {
                 acc.violations.push((
@@ -155,26 +158,43 @@ pub fn run(args: &Args, prop: &str) {
     let mut rep = Report::new(args, Level::ModelChecking);
     let flavour_s = args.extra.get("flavour").map(|s| s == "S").unwrap_or(false);
     let (oracles, convergence) = match prop {
-        "C01" => (Oracles { hello: true, ..Default::default() }, true),
+        "C01" => (Oracles::default(), true),
         "C02" => (Oracles { audit: true, ..Default::default() }, false),
         "C03" => (Oracles { reference_facts: true, ..Default::default() }, false),
         "C09" => (Oracles { frontier: true, ..Default::default() }, false),
         _ => unreachable!(),
     };
+    // each property only reports the classes its own statement speaks about (plus runtime errors)
+    let class_ok: fn(&str) -> bool = match prop {
+        "C01" => |c| !matches!(c, "hello"),
+        "C02" => |c| c.starts_with("audit") || matches!(c, "merge-evaluated" | "origin-twice" | "add-error" | "commit-error" | "observe-error" | "empty-commit"),
+        "C03" => |c| matches!(c, "facts" | "state" | "state-read" | "locate" | "add-error" | "commit-error" | "observe-error" | "empty-commit"),
+        _ => |c| matches!(c, "heads" | "heads-order" | "cmdset" | "add-error" | "commit-error" | "observe-error" | "empty-commit"),
+    };
     let mut bounds = Vec::new();
-    if prop == "C02" {
+    if prop == "C02" || prop == "C03" {
         let t0 = std::time::Instant::now();
-        bounds.extend(crate::props::spill::run_families(&mut rep, flavour_s, args.tier == Tier::Thorough));
+        let spill_classes: fn(&str) -> bool = if prop == "C02" { |c| c.starts_with("audit") || c == "merge-evaluated" } else { |c| c == "facts" };
+        bounds.extend(crate::props::spill::run_families(&mut rep, flavour_s, args.tier == Tier::Thorough, spill_classes));
         rep.set("spill_families_wall_s", t0.elapsed().as_secs_f64());
         rep.require_nonzero("runs_that_spilled");
         rep.require_nonzero("spill_reads");
     }
-    let skip_small = prop == "C02" && !flavour_s;
+    if prop == "C09" {
+        // histories with commands rejected at origin (parents deep in history, fresh perspectives)
+        let dags = crate::props::reject::universes(2, if args.tier == Tier::Thorough { 5 } else { 4 }, 2, true);
+        let cuts = [Cut::None, Cut::Batch, Cut::Flush, Cut::Commit];
+        let o = crate::sim::SimOracles { outcomes: false, state: true, effects: false, monotone: false };
+        let ex = crate::props::simrun::run_all(&mut rep, "rejecting commands", &dags, o, false, |c, _| matches!(c, "heads" | "cmdset"), |d, f| crate::props::reject::histories(d, &cuts, f));
+        STATES.with(|s| s.borrow_mut().extend(crate::props::simrun::STATES.with(|x| x.borrow().clone())));
+        bounds.push(json!({"family": "n<=4(5) with <=2 rejecting/conditional commands, all histories (heads and command set only)", "universes": dags.len(), "executions": ex}));
+    }
+    let skip_small = (prop == "C02" || prop == "C03") && !flavour_s;
     let mut per_class: BTreeMap<String, u32> = BTreeMap::new();
     for fam in families(args.tier, flavour_s, prop).into_iter().filter(|_| !skip_small) {
         let mut dags = Vec::new();
         for_each_universe(&fam.opts, |d| dags.push(d.clone()));
-        let accs: Vec<Acc> = dags.par_iter().map(|d| run_universe(d, &fam, oracles, convergence)).collect();
+        let accs: Vec<Acc> = dags.par_iter().map(|d| run_universe(d, &fam, oracles, convergence, class_ok)).collect();
         let mut fam_exec = 0;
         for a in accs {
             fam_exec += a.executions;
